@@ -355,6 +355,18 @@ pub fn run(prop: &str, thorough: bool, seed: u64, rep: &mut Report) {
             }
         }
     }
+    if matches!(prop, "C01" | "C07" | "C02") {
+        // every character of U+0000..U+00FF (and a few look-alike digits beyond) in each of the four digit
+        // positions of a \uXXXX escape: only 0-9 a-f A-F are hex digits
+        rep.checks.push(format!("{}: every character of U+0000..U+00FF and look-alike digits in each digit position of \\uXXXX", prop));
+        let mut cands: Vec<char> = (0u32..=0xFF).filter_map(char::from_u32).collect();
+        cands.extend(['\u{100}', '\u{660}', '\u{ff10}', '\u{ff21}', '\u{1d7d8}', '\u{2028}']);
+        for pos in 0..4 { for &c in &cands {
+            let mut digits: Vec<char> = "00e9".chars().collect(); digits[pos] = c;
+            let doc = format!("[\"\\u{}\"]", digits.iter().collect::<String>());
+            check_text(prop, &doc, rep);
+        } }
+    }
     if matches!(prop, "C05" | "C02" | "C01") {
         // deep (not huge) nesting: volumes and spans of every ancestor when 1..130 fragments are open at once
         // (arrays, objects, alternating, with siblings after the deep part) -- bookkeeping that is exact for
